@@ -332,3 +332,221 @@ def _returns(stmts) -> bool:
     if isinstance(last, ast.Raise):
         return True
     return False
+
+
+# ---- normalisation of a function before pattern matching / hashing ---------------------------------------------
+# A translator that pins or pattern-matches a function body should do so on the NORMALISED body, so that edits which
+# cannot change behaviour do not break the tie: docstrings, comments, type annotations, logging calls, `# type:`
+# comments, local variable names, and temporaries introduced for readability.
+
+_LOG_METHODS = {"debug", "info", "warning", "warn", "error", "exception", "critical", "log"}
+
+
+def _is_noise_stmt(st) -> bool:
+    if isinstance(st, ast.Expr):
+        if isinstance(st.value, ast.Constant):                       # docstring / bare literal
+            return True
+        c = st.value
+        if isinstance(c, ast.Call):
+            d = dotted(c.func) or ""
+            parts = d.split(".")
+            # logger.debug(...), logging.info(...), self.logger.warning(...), self._logger.debug(...)
+            if len(parts) >= 2 and parts[-1] in _LOG_METHODS and parts[-2].lstrip("_") in ("logger", "logging", "log", "LOGGER"):
+                # arguments of a logging call must be side-effect free: names, attributes, constants, f-strings, % / +, len(), str(), repr()
+                for n in ast.walk(c):
+                    if isinstance(n, ast.Call) and n is not c and (dotted(n.func) not in ("len", "str", "repr", "type", "id")):
+                        return False
+                    if isinstance(n, (ast.NamedExpr, ast.Await, ast.Yield, ast.YieldFrom, ast.Lambda)):
+                        return False
+                return True
+    if isinstance(st, ast.Pass):
+        return True
+    return False
+
+
+class _Normaliser(ast.NodeTransformer):
+    def __init__(self, rename: dict):
+        self.rename = rename
+
+    def _body(self, stmts):
+        out = []
+        for st in stmts:
+            if _is_noise_stmt(st):
+                continue
+            r = self.visit(st)
+            if r is not None:
+                out.append(r)
+        return out or [ast.Pass()]
+
+    def visit_FunctionDef(self, node):
+        node = self.generic_visit(node)
+        node.returns = None
+        for a in node.args.args + node.args.kwonlyargs + node.args.posonlyargs + \
+                ([node.args.vararg] if node.args.vararg else []) + ([node.args.kwarg] if node.args.kwarg else []):
+            a.annotation = None
+            a.type_comment = None
+        node.type_comment = None
+        node.body = self._body(node.body)
+        return node
+
+    def visit_AnnAssign(self, node):
+        node = self.generic_visit(node)
+        if node.value is None:
+            return None                                               # bare annotation `x: int`
+        return ast.copy_location(ast.Assign(targets=[node.target], value=node.value), node)
+
+    def visit_Assign(self, node):
+        node = self.generic_visit(node)
+        node.type_comment = None
+        return node
+
+    def visit_If(self, node):
+        node = self.generic_visit(node)
+        node.body = self._body(node.body)
+        node.orelse = [s for s in node.orelse if not _is_noise_stmt(s)]
+        return node
+
+    def visit_For(self, node):
+        node = self.generic_visit(node)
+        node.body = self._body(node.body)
+        node.type_comment = None
+        return node
+
+    def visit_While(self, node):
+        node = self.generic_visit(node)
+        node.body = self._body(node.body)
+        return node
+
+    def visit_With(self, node):
+        node = self.generic_visit(node)
+        node.body = self._body(node.body)
+        return node
+
+    def visit_Try(self, node):
+        node = self.generic_visit(node)
+        node.body = self._body(node.body)
+        node.finalbody = [s for s in node.finalbody if not _is_noise_stmt(s)]
+        return node
+
+    def visit_Name(self, node):
+        if node.id in self.rename:
+            return ast.copy_location(ast.Name(id=self.rename[node.id], ctx=node.ctx), node)
+        return node
+
+    def visit_arg(self, node):
+        if node.arg in self.rename:
+            node.arg = self.rename[node.arg]
+        return node
+
+    def visit_Call(self, node):
+        node = self.generic_visit(node)
+        # typing.cast(T, x) / t.cast(T, x) is the identity
+        if dotted(node.func) in ("t.cast", "typing.cast", "cast") and len(node.args) == 2 and not node.keywords:
+            return node.args[1]
+        return node
+
+
+def _local_names(fn: ast.FunctionDef, keep: set) -> list:
+    """locally bound names (assignment / for / with / comprehension targets, not parameters) in order of first binding"""
+    seen, order = set(), []
+
+    def add(n):
+        if isinstance(n, ast.Name) and n.id not in seen and n.id not in keep:
+            seen.add(n.id)
+            order.append(n.id)
+        elif isinstance(n, (ast.Tuple, ast.List)):
+            for e in n.elts:
+                add(e)
+        elif isinstance(n, ast.Starred):
+            add(n.value)
+
+    class V(ast.NodeVisitor):
+        def visit_Assign(self, node):
+            for tg in node.targets:
+                add(tg)
+            self.generic_visit(node)
+
+        def visit_AnnAssign(self, node):
+            add(node.target)
+            self.generic_visit(node)
+
+        def visit_AugAssign(self, node):
+            add(node.target)
+            self.generic_visit(node)
+
+        def visit_For(self, node):
+            add(node.target)
+            self.generic_visit(node)
+
+        def visit_With(self, node):
+            for it in node.items:
+                if it.optional_vars is not None:
+                    add(it.optional_vars)
+            self.generic_visit(node)
+
+        def visit_comprehension(self, node):
+            add(node.target)
+            self.generic_visit(node)
+
+        def visit_NamedExpr(self, node):
+            add(node.target)
+            self.generic_visit(node)
+
+        def visit_FunctionDef(self, node):
+            if node is not fn:
+                return                                              # nested defs keep their own names
+            self.generic_visit(node)
+
+        visit_Lambda = lambda self, node: None
+
+    V().visit(fn)
+    return order
+
+
+def normalize_func(fn: ast.FunctionDef, rename_locals: bool = True, rename_params: bool = False) -> ast.FunctionDef:
+    """A copy of `fn` without docstrings, comments, annotations, `typing.cast`, logging statements and `pass`, and (by
+    default) with its local variables alpha-renamed to _v0, _v1, ... in order of first binding (parameters are kept unless
+    rename_params, then they become _p0, ... except self/cls).  Two functions with equal `ast.dump` of the result differ
+    only in ways that cannot change behaviour.  Functions using global/nonlocal, or locals()/vars()/eval/exec, are refused."""
+    import copy as _copy
+    fn = _copy.deepcopy(fn)
+    for n in ast.walk(fn):
+        if isinstance(n, (ast.Global, ast.Nonlocal)):
+            raise Untranslatable(f"{fn.name}: global/nonlocal")
+        if isinstance(n, ast.Call) and dotted(n.func) in ("locals", "vars", "eval", "exec", "globals"):
+            raise Untranslatable(f"{fn.name}: reflective call")
+    params = [a.arg for a in fn.args.posonlyargs + fn.args.args + fn.args.kwonlyargs]
+    if fn.args.vararg:
+        params.append(fn.args.vararg.arg)
+    if fn.args.kwarg:
+        params.append(fn.args.kwarg.arg)
+    rename = {}
+    if rename_params:
+        i = 0
+        for p in params:
+            if p not in ("self", "cls"):
+                rename[p] = f"_p{i}"
+                i += 1
+    if rename_locals:
+        for i, n in enumerate(_local_names(fn, set(params))):
+            rename[n] = f"_v{i}"
+    out = _Normaliser(rename).visit(fn)
+    ast.fix_missing_locations(out)
+    return out
+
+
+def norm_dump(fn: ast.FunctionDef, **kw) -> str:
+    n = normalize_func(fn, **kw)
+    n.name = "_f"
+    n.decorator_list = []
+    return ast.dump(n, include_attributes=False)
+
+
+def norm_hash(fn: ast.FunctionDef, **kw) -> str:
+    """hash of the normalised function: stable under docstring / comment / annotation / logging / local-renaming edits"""
+    return hashlib.sha1(norm_dump(fn, **kw).encode()).hexdigest()[:12]
+
+
+def norm_body(fn: ast.FunctionDef, **kw) -> list:
+    """the normalised statement list (what pattern matchers should look at)"""
+    return normalize_func(fn, **kw).body
